@@ -416,7 +416,7 @@ pub fn run_replica(ops: &[REOp], local: &mut Local) -> Check {
                 let r = sim.r.as_ref().unwrap();
                 subs.resubscribe(r);
             }
-            REOp::S(SOp::Sync) | REOp::S(SOp::RClearRange(..)) => {}
+            REOp::S(SOp::Sync) | REOp::S(SOp::RClearRange(..)) | REOp::S(SOp::RClearAt(..)) => {}
             REOp::S(SOp::RClear(x)) => {
                 sim.replica_clear(*x, &mut scratch)?;
                 if let Some(got) = subs.collect(&ctxt)? {
